@@ -60,6 +60,22 @@ CHECKS = {
    technique="bounded exhaustive enumeration of sensor/host/mask/FoV/slew/range/phenomenology lattices on the real collectObservations pipeline against an independent failing-constraint oracle (verif/oracles/c02_geom.py)",
    text="The real sensor pipeline (all three sensor kinds on ground and space hosts, built with sensorFactory / SensingAgent.fromConfig on a real clock) is driven over complete lattices (12k tasked attempts quick, 90k thorough) incl. every mask end, the north seam, the zenith, FoV edges, slew/range/radar/illumination/magnitude/exclusion/limb thresholds, background sets of 0-2 targets and noise vectors 0, +-e_i. Every returned record is compared with an independently recomputed failing-constraint set and geometry: no observation (tasked or serendipitous) violates a constraint, each tasked attempt yields exactly one primary record (observation xor miss), miss reasons are true, measurements equal the geometry exactly and differ by exactly sqrtm(R) e_i under enumerated noise; Measurement/Observation classes, predictObservation, asyncExecuteTasking and the stored rows agree with the same oracle.",
    note="library eci2ecef rotation and Sun.getPosition trusted (C04, C13); ecef2lla accurate to 1e-10 rad; spherical Earth of the equatorial radius for line of sight; stated either-way bands (limb/darkness geodetic-vs-geocentric vertical, Sun parallax); tasking-engine bookkeeping is C08's"),
+ "C03": dict(level="model_checking", design="§3 C03",
+   technique="bounded exhaustive lattice enumeration (90 orbits x spans x split points x batch layouts x output grids x epoch shifts x forced restarts) on the real propagators against an independent closed-form Kepler reference (verif/oracles/kepler_ref.py)",
+   text="The real TwoBody and SpecialPerturbations dynamics are driven through Celestial.propagate/propagateBulk with RK45 and DOP853 on a complete lattice of 90 bound orbits (LEO to 60000 km, e<=0.7, i in {0,28.5,90,150,180} deg) and spans from 1 s to 1 day: every split point, batch column, output grid, forced stop/restart and start-epoch shift reproduces the single call within a derived integrator tolerance (>=4x above the worst measured error, orders below layout/restart/epoch defects); two-body results, solveKeplerProblemUniversal and the scalar helpers of orbits/utils.py agree with an independent Kepler reference and conserve energy and angular momentum.",
+   note="solve_ivp honours rtol/atol; closed-form conic relations are the truth; the SP force value itself is C13's; with SRP enabled only effects larger than the SRP displacement are visible; nothing between lattice points, no negative scenario times"),
+ "C11": dict(level="model_checking", design="§3 C11",
+   technique="bounded exhaustive lattice enumeration (108 sites x every start second of listed minutes x steps x elapsed times up to days) through the real config->clock->dynamicsFactory->Terrestrial->SensingAgent->propagation-job path and real truth-only scenarios, against an own geodetic closed form and the independent FK5 reference",
+   text="For every lattice point the reported inertial state, the TruthEphemeris rows and the agent's ECEF/LLA views lie within 1 m of an independently computed Earth-fixed site position at the true UTC instant (python datetime arithmetic), the inertial velocity equals (rotation rate incl. LOD about the pole of date) x r to 1e-10 km/s, Terrestrial.propagate is independent of t0 and of the state passed in, and sensors added mid-run (directly and by a sensor_addition event) are placed correctly.",
+   note="UTC without leap-second insertion as in the library; the ECI<->ECEF reduction is C04's (cross-checked against C04's independent reference); ellipsoid constants are own literals"),
+ "C15": dict(level="model_checking", design="§3 C15",
+   technique="bounded exhaustive enumeration of (burn start, burn end) pairs against the step grid x kinds x dynamics on real TargetAgents (direct queueing and real event rows) and real truth-only Scenarios, against an independent DOP853 integration thrusting only inside the interval",
+   text="Every burn start/end pair of a six-instant alphabet relative to the step grid (inside one step, spanning 2-3 steps, start or end exactly on a boundary) for ECI and NTW burns and spiral and plane-change maneuvers, on SpecialPerturbations and TwoBody, steps 60/300 s (30/450 thorough): the state after every step equals to 1e-7 km/s and 2e-5 km an independent integration that thrusts only inside [t_start, t_end] (a 1 s timing error is 1e-5 km/s), the delivered delta-v equals the reference burn's, the event queue after every prune holds exactly one copy of each not-yet-ended burn, and an exact closed-form protocol lattice checks Celestial.propagate's event handling directly.",
+   note="library gravity derivative and Julian-date conversion are other properties' subjects; scipy DOP853 is the reference integrator; burns on one agent do not overlap"),
+ "C18": dict(level="model_checking", design="§3 C18",
+   technique="explicit-state exploration of observation histories (tree from pickled snapshots of the real filter objects) on the real StaticMultipleModel / GeneralizedPseudoBayesian1 with real UKF models, lock-step independent log-space Bayes / Kalman / moment-matching reference",
+   text="For 2, 3, 5 and 30 models, four layouts incl. likelihood underflow and a far-away no-maneuver model, 4 prune thresholds, 2-3 convergence percentages and every observation history to depth 3 (quick) / 4-5 (thorough) or until closure, also through the real EstimateAgent serial and job-path updates: after every predict, update and prune the probabilities are finite, non-negative, sum to one and follow Bayes' rule (with the documented uniform reset, GPB1 mixing and SMM pre-weighting), at least one model remains and exactly the models at or above the threshold survive (the most probable one when all are marked), estimate and covariance are the weighted mean and moment-matched mixture (symmetric PSD), closure happens exactly when the chi-square-gated rule says, and the handed-back filter is the surviving / merged model and keeps filtering.",
+   note="numpy and scipy.stats.chi2 arithmetic; UKF = KF on linear systems in the no-redraw mode (C06); hypothesis generation (DB and Lambert) stubbed; the 1e-15 reset accepted as designed"),
 }
 
 NOT_APPLICABLE = {}
